@@ -86,10 +86,14 @@ pub struct SysCfg {
     pub epoch_duration: u64,
     /// genesis = block time + offset
     pub genesis_offset: u64,
+    /// instantiate the contracts with a chain-level (migration) admin - the owner's account. Off by default: without an admin
+    /// nobody can migrate, and code that confuses the owner with the admin is visible to the authorisation graph
+    pub admin: bool,
 }
 impl Default for SysCfg {
     fn default() -> Self {
         SysCfg {
+            admin: false,
             farm_fee: coin(1000, "uom"),
             pool_fee: coin(1000, "uusd"),
             tf_fee: vec![coin(8888, "uom")],
@@ -167,7 +171,7 @@ impl Sys {
                 },
                 &[],
                 "epoch",
-                Some(owner.to_string()),
+                if cfg.admin { Some(owner.to_string()) } else { None },
             )
             .unwrap();
         let f_id = app.store_code(c_fee());
@@ -178,7 +182,7 @@ impl Sys {
                 &mantra_dex_std::fee_collector::InstantiateMsg {},
                 &[],
                 "fee",
-                Some(owner.to_string()),
+                if cfg.admin { Some(owner.to_string()) } else { None },
             )
             .unwrap();
         let fm_id = app.store_code(c_farm());
@@ -201,7 +205,7 @@ impl Sys {
                 },
                 &[],
                 "farm",
-                Some(owner.to_string()),
+                if cfg.admin { Some(owner.to_string()) } else { None },
             )
             .unwrap();
         let pm_id = app.store_code(c_pool());
@@ -216,7 +220,7 @@ impl Sys {
                 },
                 &[],
                 "pool",
-                Some(owner.to_string()),
+                if cfg.admin { Some(owner.to_string()) } else { None },
             )
             .unwrap();
         app.execute_contract(
